@@ -243,6 +243,29 @@ func check(c Case) error {
 			return harness.Failf("C15/pending", "apply up to t=%d: %s", c.T, d)
 		}
 	}
+	// 1b. a struct copy with its own child list shares the update list with the
+	// original; applying the updates on the copy leaves the original as it was
+	if errIdx < 0 {
+		var before, after string
+		if c.IsWay {
+			w := c.way()
+			before = fmt.Sprint(w.Nodes, w.Updates)
+			cp := *w
+			cp.Nodes = append(osm.WayNodes(nil), w.Nodes...)
+			cp.ApplyUpdatesUpTo(c.q(c.T))
+			after = fmt.Sprint(w.Nodes, w.Updates)
+		} else {
+			r := c.relation()
+			before = fmt.Sprint(r.Members, r.Updates)
+			cp := *r
+			cp.Members = append(osm.Members(nil), r.Members...)
+			cp.ApplyUpdatesUpTo(c.q(c.T))
+			after = fmt.Sprint(r.Members, r.Updates)
+		}
+		if before != after {
+			return harness.Failf("C15/apply-on-copy-changes-original", "applying the updates up to t=%d on a struct copy (own child list, shared update list) changed the original (way=%v):\n before %s\n after  %s", c.T, c.IsWay, before, after)
+		}
+	}
 	// 2. Updates.UpTo
 	var wantUpTo []Upd
 	for _, u := range us {
